@@ -271,6 +271,8 @@ def run(ctx: Context) -> None:
     with ctx.section('R16.3 inventory completeness'):
         from ..handles import inventory_obligations
         inventory_obligations(ctx, 'R16.3')
+        from . import infra as _infra163
+        _infra163.ugrid_inventory(ctx, 'R16.3')
 
     # ---- R16.4 canonical bytes
     with ctx.section('R16.4 canonical bytes'):
